@@ -240,6 +240,8 @@ def obligations(tier, seed):
         for h in holes:
             if h.kind != "name":
                 h.L = L
+            if h.kind == "str":
+                h.other_quote = True          # "quoted strings lose only their outer quotes": inner quotes of the other kind stay, wherever they are
             params += h.params()
             pre += h.pre()
             build.append(h.build())
